@@ -55,7 +55,7 @@ PROPS["C11"] = dict(
 NOT_APPLICABLE = {}
 
 # hook commits in /repo (guard: cargo feature `verif`)
-HOOK_COMMITS = ["a7bbd44 (bft: read-only replica observer)", "bc9722d (network: facade over crate-private items)", "a1b1679 (network facade: raw gossip peer)"]
+HOOK_COMMITS = ["a7bbd44 (bft: read-only replica observer)", "bc9722d (network: facade over crate-private items)", "a1b1679 (network facade: raw gossip peer)", "ccaf668 (network facade: split a transient stream)"]
 
 PROPS["C04"] = dict(
     title="Certificates are accepted exactly when genuinely backed by a quorum",
@@ -230,7 +230,7 @@ PROPS["C15"] = dict(
     assumptions=["held on the generated operation sequences only", "the multi-thread variant stamps grants after the fact and allows 5 ms of stamping delay"],
     stages=[
         dict(name="limiter-native", flavour="release", **CONC),
-        dict(name="limiter-miri", flavour="miri", args=_SMALL, shards=8, tiers=["thorough"], **CONC),
+        dict(name="limiter-miri", flavour="miri", args={"small": 1, "cases": 2}, shards=8, tiers=["thorough"], **CONC),
         dict(name="rpc", flavour="release", crate="net"),
     ],
     floors={"quick": {"windows_checked": 100000, "cancelled_waits_observed": 5000, "differential_cancel_cases": 2000, "fifo_sequences_checked": 2000, "oversized_requests_checked": 1000, "infinite_rate_requests_checked": 1000, "handler_invocations": 3000, "rpc_windows_checked": 50000, "rpc_raw_client_cases": 100, "max_concurrent_handlers": 3},
